@@ -6,14 +6,17 @@ import os, re, subprocess
 CALL = re.compile(r"^(\d+)\s+(\w+)\((.*)\)\s+=\s+(-?\d+|\?)(.*)$")
 
 
-def run_traced(exe, args, cwd, inject=None, stdin=None, timeout=120):
+def run_traced(exe, args, cwd, inject=None, stdin=None, timeout=120, input=None):
     tr = os.path.join(cwd, ".trace")
     cmd = ["strace", "-f", "-o", tr, "-e", "trace=openat,open,close,read,pread64,write,pwrite64,lseek,unlink,unlinkat,rename,renameat,rt_sigaction,exit_group,ftruncate,dup,dup2,dup3"]
     if inject:
         cmd += ["-e", inject]
     cmd += [exe] + args
     try:
-        p = subprocess.run(cmd, cwd=cwd, stdin=stdin, stdout=subprocess.PIPE, stderr=subprocess.PIPE, timeout=timeout)
+        if input is not None:       # what the tool reads when it asks a question ("y\n" ... / nothing: end of file)
+            p = subprocess.run(cmd, cwd=cwd, input=input, stdout=subprocess.PIPE, stderr=subprocess.PIPE, timeout=timeout)
+        else:
+            p = subprocess.run(cmd, cwd=cwd, stdin=stdin, stdout=subprocess.PIPE, stderr=subprocess.PIPE, timeout=timeout)
         rc, out, err = p.returncode, p.stdout, p.stderr
     except subprocess.TimeoutExpired as e:
         rc, out, err = -999, e.stdout or b"", e.stderr or b""
